@@ -264,13 +264,22 @@ class LoopMixin:
             pend = self.pending
         finally:
             self.pending = save
-        for cond, exc, n in pend:
-            s2 = pre.copy()
+        for cond, exc, n, snap in pend:
+            s2 = snap  # the state in which the exception is raised (facts and effects up to that point)
             s2.assume(cond)
             res.append((s2, Outcome("raise", exc=exc, line=getattr(n, "lineno", None))))
             st.assume(z3.Not(cond))
         spec, htxt = self.loop_spec(node)
-        if spec is not None and spec.unroll and itv.is_py and isinstance(itv.py, (set, frozenset)):
+        auto = False
+        if itv.is_py and isinstance(itv.py, (set, frozenset)) and len(itv.py) > 1 and not (spec is not None and (spec.unroll or spec.invariants)) and isinstance(node.target, ast.Name):
+            # the loop variable names an attribute (`getattr(obj, attr)` / `setattr` / `hasattr`) and ranges over a LITERAL set of
+            # names: only unrolling can execute the body (attribute names must be concrete)
+            for n_ in ast.walk(ast.Module(body=node.body, type_ignores=[])):
+                if (isinstance(n_, ast.Call) and isinstance(n_.func, ast.Name) and n_.func.id in ("getattr", "setattr", "hasattr", "delattr")
+                        and len(n_.args) >= 2 and isinstance(n_.args[1], ast.Name) and n_.args[1].id == node.target.id):
+                    auto = True
+                    break
+        if auto or (spec is not None and spec.unroll and itv.is_py and isinstance(itv.py, (set, frozenset))):
             # literal set unrolled in sorted order at the contract's request: the body's independence of the
             # iteration order is then an assumption of this contract (recorded)
             self._unroll_sets = True
@@ -279,7 +288,7 @@ class LoopMixin:
             info = self.iter_info(itv, st, node)
         finally:
             self._unroll_sets = False
-        if info.kind == "concrete" and (spec is None or spec.unroll):
+        if info.kind == "concrete" and (spec is None or spec.unroll or auto):
             return res + self.unroll(node, info.items, st)
         if spec is None:
             spec = api.Loop()
@@ -463,8 +472,8 @@ class LoopMixin:
                 pend = self.pending
             finally:
                 self.pending = save
-            for cond, exc, n in pend:
-                s2 = pre.copy()
+            for cond, exc, n, snap in pend:
+                s2 = snap  # the state in which the exception is raised (facts and effects up to that point)
                 s2.assume(cond)
                 if collect is None:
                     out_res.append((s2, Outcome("raise", exc=exc, line=getattr(n, "lineno", None))))
